@@ -1161,6 +1161,16 @@ func (s *Sim) fillCode(a *Action, bs *BState, f map[string]string, kind string) 
 				}
 			}
 		}
+	case "wrongfield": // a secret of the account typed into the code field by mistake: one of its live
+		// recovery codes (Opt[what]=recovery) or its password — not a code, so it is refused
+		a.Resolved, a.Secret = "wrong", "000007"
+		if sub != nil {
+			if l := sub.live(sub.Recov); len(l) > 0 && a.opt("what") != "password" {
+				a.Resolved, a.Secret = "wrongfield", l[0]
+			} else if sub.Pw != "" {
+				a.Resolved, a.Secret = "wrongfield", sub.Pw
+			}
+		}
 	case "blank": // whitespace only
 		a.Secret = []string{" ", "  ", "\t", " \n"}[s.R.Intn(4)]
 	case "emptysecret": // the current code of the EMPTY secret (anybody can compute it)
